@@ -1469,6 +1469,34 @@ fn c06(ctx: &mut Ctx) {
                 }
             }
         }
+        // the combined commitments against their specification: the same linear combination of the
+        // library's commitment points (group arithmetic of the curve crate)
+        if expected.is_none() {
+            use ark_ec::CurveGroup;
+            let mut pc: Vec<G1Affine> = vec![];
+            let mut psh: Vec<Option<G1Affine>> = vec![];
+            for lc in &lcs {
+                let mut acc = G1Projective::zero();
+                let mut sh: Option<G1Projective> = None;
+                for (co, t) in lc.iter() {
+                    if let LCTerm::PolyLabel(l) = t {
+                        let pi = c.polys.iter().rposition(|p| p.label() == l).unwrap();
+                        acc += c.comms[pi].commitment().comm.mul(*co);
+                        if let Some(x) = c.comms[pi].commitment().shifted_comm {
+                            sh = Some(sh.unwrap_or(G1Projective::zero()) + x.mul(*co));
+                        }
+                    }
+                }
+                pc.push(acc.into_affine());
+                psh.push(sh.map(|x| x.into_affine()));
+            }
+            ctx.ses.ask(&format!("{}/commitments", id0), base_p("ipa.lc_commitments"), ImplOutcome::Ok(vec![
+                ("pcs".into(), Expect::G1s(pc.clone())),
+                ("pss".into(), Expect::OptG1List(psh.clone())),
+                ("vcs".into(), Expect::G1s(pc)),
+                ("vss".into(), Expect::OptG1List(psh)),
+            ]));
+        }
         // variants: (name, combinations, evaluations, expectation: Some(true) accept / Some(false) refuse / None)
         let mut variants: Vec<(String, Vec<Lc>, Evaluations<Fr, Fr>, Option<bool>)> = vec![];
         let keys: Vec<(String, Fr)> = ev.keys().cloned().collect();
